@@ -43,7 +43,8 @@ type C16Scenario struct {
 	ViaSubscribe bool `json:"via_subscribe,omitempty"`
 	// RegDuring: another task registers an unrelated upcaster while the upcasting replay runs
 	RegDuring bool `json:"reg_during,omitempty"`
-	// ByOption: the raw upcasters of C are given to New as WithUpcast options (a refused one is dropped silently)
+	// ByOption: the registrations (of A, or the raw upcasters of C) are given to New as WithUpcast options,
+	// in order; a refused one is dropped silently, clears cannot be expressed and are skipped
 	ByOption bool `json:"by_option,omitempty"`
 }
 
@@ -82,6 +83,7 @@ func genC16(rt *rapid.T) core.Scenario {
 		for i := 0; i < n; i++ {
 			sc.Seq = append(sc.Seq, genC16Op(rt, sc.Names))
 		}
+		sc.ByOption = rapid.IntRange(0, 2).Draw(rt, "seqByOption") == 2
 	case 1:
 		n := rapid.IntRange(0, 4).Draw(rt, "nSeq")
 		for i := 0; i < n; i++ {
@@ -222,9 +224,25 @@ func (sc *C16Scenario) Execute(t *testing.T) *core.Outcome {
 				opts = append(opts, eventbus.WithUpcast(c16Name(u.From), c16Name(u.To), mkUp(u)))
 			}
 		}
-		bus := eventbus.New(opts...)
 		g := c16Graph{}
-		for i, op := range sc.Seq {
+		seq := sc.Seq
+		if sc.ByOption && len(sc.Ups) == 0 {
+			for _, op := range sc.Seq {
+				if op.Kind != "reg" {
+					continue
+				}
+				var f eventbus.UpcastFunc
+				if !op.Nil {
+					to := c16Name(op.B)
+					f = func(d json.RawMessage) (json.RawMessage, string, error) { return d, to, nil }
+				}
+				opts = append(opts, eventbus.WithUpcast(c16Name(op.A), c16Name(op.B), f))
+				_, g = g.apply(op)
+			}
+			seq = nil
+		}
+		bus := eventbus.New(opts...)
+		for i, op := range seq {
 			want, ng := g.apply(op)
 			got := c16Exec(bus, op)
 			rec.Add("seq-"+op.Kind, op.A, op.B, fmt.Sprint(got))
@@ -233,6 +251,27 @@ func (sc *C16Scenario) Execute(t *testing.T) *core.Outcome {
 				return
 			}
 			g = ng
+		}
+		if len(sc.Tasks) == 0 && len(sc.Ups) == 0 {
+			// what the registry really holds, seen through an upcasting replay of one event per name: every
+			// event must come out at the type the model's graph leads to (first-registered upcaster per type)
+			ctx := context.Background()
+			for i := 0; i < sc.Names; i++ {
+				store.Append(ctx, &eventbus.Event{Type: c16Name(i), Data: json.RawMessage(`{}`), Timestamp: time.Unix(int64(i), 0)})
+			}
+			var got []string
+			err := bus.ReplayWithUpcast(ctx, eventbus.OffsetOldest, func(e *eventbus.StoredEvent) error { got = append(got, e.Type); return nil })
+			var want []string
+			for i := 0; i < sc.Names; i++ {
+				cur := c16Name(i)
+				for steps := 0; steps < 100 && len(g[cur]) > 0; steps++ {
+					cur = g[cur][0]
+				}
+				want = append(want, cur)
+			}
+			if err != nil || !reflect.DeepEqual(got, want) {
+				out.V("registry-content", "after the registrations (given as WithUpcast options: %v), replaying one event of each type %v with upcasting yields types %v (error %v, upcast errors %d); the acyclic graph of accepted registrations leads to %v", sc.ByOption, c16Names[:sc.Names], got, err, upErrs, want)
+			}
 		}
 		if len(sc.Tasks) > 0 {
 			var ops []porcupine.Operation
